@@ -104,6 +104,9 @@ class RTDCWriter:
                                     mode=("w" if mode == "reset" else "a"))
         #: unfortunate necessity, as `len(h5py.Group)` can be really slow
         self._group_sizes = {}
+        #: number of valid (not nan) values of the scalar datasets written
+        #: (used for updating the "mean" attribute when appending data)
+        self._num_valid = {}
 
     def __enter__(self):
         return self
@@ -840,15 +843,27 @@ class RTDCWriter:
                 else:
                     val = ufunc(dset)
                 dset.attrs[uname] = val
-            # store ufunc data for mean (weighted with size)
+            # store ufunc data for mean (weighted with the number of
+            # valid values, because nan values are ignored)
             mean_a = dset.attrs.get("mean", None)
+            num_b = int(np.sum(~np.isnan(data)))
             if mean_a is not None:
-                num_a = offset
-                mean_b = np.nanmean(data)
-                num_b = data.size
-                mean = (mean_a * num_a + mean_b * num_b) / (num_a + num_b)
+                if dset.name not in self._num_valid:
+                    # The dataset was written in a previous session.
+                    self._num_valid[dset.name] = int(
+                        np.sum(~np.isnan(dset[:offset])))
+                num_a = self._num_valid[dset.name]
+                if num_b == 0:
+                    mean = mean_a
+                elif num_a == 0:
+                    mean = np.nanmean(data)
+                else:
+                    mean_b = np.nanmean(data)
+                    mean = (mean_a * num_a + mean_b * num_b) / (num_a + num_b)
+                self._num_valid[dset.name] = num_a + num_b
             else:
                 mean = np.nanmean(dset)
+                self._num_valid[dset.name] = int(np.sum(~np.isnan(dset[:])))
             dset.attrs["mean"] = mean
         else:
             chunk_size = dset.chunks[0]
